@@ -714,6 +714,15 @@ pub fn process<I: BufRead, O: Write>(
                                 }
 
                                 // Process file
+                                // A file that (directly or not) includes itself would be read for ever
+                                if context.includes_stack.len() >= 64 {
+                                    return Err(Error::Syntax {
+                                        filename: filename.clone(),
+                                        included_in: included_in.clone(),
+                                        line,
+                                        msg: "Too many nested #include".to_string(),
+                                    });
+                                }
                                 let f = File::open(path)?;
                                 let assembler = fname.ends_with(".inc")
                                     || fname.ends_with(".a")
